@@ -340,24 +340,53 @@ static void sk_case(uint64_t idx, void *ctx)
     mc_outcome((uint64_t) NGOT * 7 + idx);
 }
 /* ---- values are expanded before a line is delivered: a variable set to the empty string is set (the two-word %get gives its value, not the fallback) */
-static void xv_desc(uint64_t idx, void *ctx, char *b, size_t n) { (void) ctx; snprintf(b, n, idx ? "file [begin A] [%%put(e \"\")] [x=%%get(e blue)] [y=%%get(unset blue)] [end]" : "file [begin A] [%%put(e v)] [x=%%get(e blue)] [y=%%get(unset blue)] [end]"); }
+static const char *XQ[][2] = { { "k 'a\"b' $V ~", "k 'a\"b' val /h" }, { "k \"it\" '$V' \"$V\" ~", "k \"it\" '$V' \"val\" /h" }, { "k '\"' \"$V\" '\"' ~", "k '\"' \"val\" '\"' /h" } };
+#define NXQ ((int) (sizeof XQ / sizeof XQ[0]))
+static void xv_desc(uint64_t idx, void *ctx, char *b, size_t n) { (void) ctx; if (idx >= 2) { snprintf(b, n, "file [begin A] [%s] [end] with V=val and HOME=/h: a double quote between single quotes is an ordinary character", XQ[idx - 2][0]); return; } snprintf(b, n, idx ? "file [begin A] [%%put(e \"\")] [x=%%get(e blue)] [y=%%get(unset blue)] [end]" : "file [begin A] [%%put(e v)] [x=%%get(e blue)] [y=%%get(unset blue)] [end]"); }
 static void xv_case(uint64_t idx, void *ctx)
 {
     (void) ctx; const char *shape = "line with %put / %get"; mc_set_shape(shape);
-    char data[300]; size_t o = (size_t) snprintf(data, sizeof data, "<verif-1.0>\nbegin A\n%%put(e %s)\nx=%%get(e blue)\ny=%%get(unset blue)\nend\n", idx ? "\"\"" : "v");
+    char data[300]; size_t o = idx >= 2 ? (size_t) snprintf(data, sizeof data, "<verif-1.0>\nbegin A\n%s\nend\n", XQ[idx - 2][0]) : (size_t) snprintf(data, sizeof data, "<verif-1.0>\nbegin A\n%%put(e %s)\nx=%%get(e blue)\ny=%%get(unset blue)\nend\n", idx ? "\"\"" : "v");
     snprintf(g_main, sizeof g_main, "%s/xv-%d.cfg", scratch(), (int) getpid());
     write_file(g_main, data, o);
     setup();
     g_env_on = 1; g_ledger_on = 1; g_allow_fork = 0;
     m_line(L_BEGIN_A);
+    if (idx >= 2) STK[DEPTH].state = m_call(STK[DEPTH].ctx, 'T', XQ[idx - 2][1], STK[DEPTH].state);
+    else {
     STK[DEPTH].state = m_call(STK[DEPTH].ctx, 'T', idx ? "x=" : "x=v", STK[DEPTH].state);
-    STK[DEPTH].state = m_call(STK[DEPTH].ctx, 'T', "y=blue", STK[DEPTH].state);
+    STK[DEPTH].state = m_call(STK[DEPTH].ctx, 'T', "y=blue", STK[DEPTH].state); }
     m_line(L_END);
     spif_charptr_t r = spifconf_parse((spif_charptr_t) g_main, NULL, NULL);
     g_env_on = 0; g_ledger_on = 0; g_allow_fork = 1;
     if (!r) FAIL("spifconf_parse", "model:return", shape, "returned NULL"); else FREE(r);
     g_skip_state = 1;
     compare_and_finish(shape, DEPTH);
+    g_skip_state = 0;
+    mc_nontrivial();
+    mc_outcome((uint64_t) NGOT * 7 + idx);
+}
+/* ---- the application replaces the handler of the "null" context: top-level lines and blocks of unknown names go to it - also when every other context ID is in use */
+static void *handler_N(spif_charptr_t b, void *s) { return handler('N', b, s); }
+static const int NR_EXTRA[3] = { 0, 100, 253 };
+static void nr_desc(uint64_t idx, void *ctx, char *b, size_t n) { (void) ctx; snprintf(b, n, "contexts A, B and %d more registered (%d of 255 IDs in use), then register_context(\"%s\", handler N); file [t1] [begin zz] [  t2 two  ] [end] [begin A] [t1] [end]", NR_EXTRA[idx / 2], NR_EXTRA[idx / 2] + 2, idx % 2 ? "NULL" : "null"); }
+static void nr_case(uint64_t idx, void *ctx)
+{
+    (void) ctx; const char *shape = NR_EXTRA[idx / 2] + 2 == 255 ? "null context replaced with the context table full" : "null context replaced"; mc_set_shape(shape);
+    char data[300]; size_t o = (size_t) snprintf(data, sizeof data, "<verif-1.0>\nt1\nbegin zz\n  t2 two  \nend\nbegin A\nt1\nend\n");
+    snprintf(g_main, sizeof g_main, "%s/nr-%d.cfg", scratch(), (int) getpid());
+    write_file(g_main, data, o);
+    setup();
+    for (int i = 0; i < NR_EXTRA[idx / 2]; i++) { char nm[24]; snprintf(nm, sizeof nm, "c%d", i); unsigned char id = spifconf_register_context((spif_charptr_t) nm, handler_B); if (id != i + 3) FAIL("spifconf_register_context", "model:return", shape, "context number %d got id %u", i + 3, id); }
+    unsigned char id0 = spifconf_register_context((spif_charptr_t) (idx % 2 ? "NULL" : "null"), handler_N);
+    if (id0 != 0) FAIL("spifconf_register_context", "model:return", shape, "registering the null context again returned id %u, expected 0", id0);
+    g_env_on = 1; g_ledger_on = 1; g_allow_fork = 0;
+    m_emit('N', 'T', "t1", 0); m_emit('N', 'B', "", 0); m_emit('N', 'T', "t2 two", 0); m_emit('N', 'E', "", 0); m_emit('A', 'B', "", 0); m_emit('A', 'T', "t1", 0); m_emit('A', 'E', "", 0);
+    spif_charptr_t r = spifconf_parse((spif_charptr_t) g_main, NULL, NULL);
+    g_env_on = 0; g_ledger_on = 0; g_allow_fork = 1;
+    if (!r) FAIL("spifconf_parse", "model:return", shape, "returned NULL"); else FREE(r);
+    g_skip_state = 1;
+    compare_and_finish(shape, 0);
     g_skip_state = 0;
     mc_nontrivial();
     mc_outcome((uint64_t) NGOT * 7 + idx);
@@ -428,7 +457,8 @@ int main(int argc, char **argv)
     for (g_n = 1; g_n <= 2; g_n++) mc_e2_level("argv_lines", g_n, mc_words_of_len(NAV, g_n), av_case, av_desc, NULL);
     mc_e2_level("argv_lines_in_open_context", 2, (uint64_t) NAV2 * 2, av2_case, av2_desc, NULL);
     mc_e2_level("skip_to_end", 1, NSKIPV, sk_case, sk_desc, NULL);
-    mc_e2_level("expanded_values", 1, 2, xv_case, xv_desc, NULL);
+    mc_e2_level("expanded_values", 1, 2 + NXQ, xv_case, xv_desc, NULL);
+    mc_e2_level("null_context_replaced", 255, 6, nr_case, nr_desc, NULL);
     for (g_n = 0; g_n <= N; g_n++) if (!mc_e2_level("files", g_n, mc_words_of_len(NKIND, g_n) * 2, f_case, f_desc, NULL)) break;
     return mc_finish();
 }
